@@ -54,6 +54,14 @@ def run(ctx, spec):
         yy = rm.f2sqrt(rm.f2add(rm.f2mul(rm.f2mul(xx, xx), xx), (5, 0)))
         if yy is not None:
             pts.append(('wrong-curve', (xx, yy)))
+        # order-r points of an ISOMORPHIC curve: (s^2 x, s^3 y) lies on y^2 = x^3 + s^6 * 5u and still has order r, so only the
+        # curve equation can reject it (the a = 0 group formulas never use the constant)
+        for _ in range(2):
+            sc = gen.fq2_value(rng)[0]
+            if sc in ((0, 0), (1, 0)):
+                sc = (3, 5)
+            s2 = rm.f2mul(sc, sc)
+            pts.append(('wrong-curve', (rm.f2mul(sub[0], s2), rm.f2mul(sub[1], rm.f2mul(s2, sc)))))
         for cls, P in pts:
             if P is None:
                 continue
